@@ -423,17 +423,17 @@ Lemma existsb_ext' {A} (f g : A -> bool) l : (forall x, f x = g x) -> existsb f 
 Proof. intros E. induction l as [|x l IH]; [reflexivity|]. cbn [existsb]. rewrite E, IH. reflexivity. Qed.
 Lemma kw_incl_1 : incl_b kw2008 LangLexer.keywords_2008 = true.
 Proof. vm_compute. reflexivity. Qed.
-Lemma kw_incl_2 : incl_b LangLexer.keywords_2008 (ASSUME_G :: RESTRICT_G :: kw2008) = true.
+Lemma kw_incl_2 : incl_b LangLexer.keywords_2008 kw2008 = true.
 Proof. vm_compute. reflexivity. Qed.
-Lemma kw_agree l : l <> ASSUME_G -> l <> RESTRICT_G ->
+(* the two keyword tables hold the same words (since commit 9360ea7) *)
+Lemma kw_agree l :
   existsb (beq_bytes l) kw2008 = existsb (list_eqb l) LangLexer.keywords_2008.
 Proof.
-  intros N1 N2. rewrite (existsb_ext' _ (list_eqb l)) by (intros; apply beq_list_eqb).
+  rewrite (existsb_ext' _ (list_eqb l)) by (intros; apply beq_list_eqb).
   destruct (existsb (list_eqb l) kw2008) eqn:E1; destruct (existsb (list_eqb l) LangLexer.keywords_2008) eqn:E2;
     try reflexivity; exfalso.
   - apply existsb_eqb_in in E1. apply (incl_b_sound _ _ kw_incl_1) in E1. apply existsb_eqb_in in E1. congruence.
-  - apply existsb_eqb_in in E2. apply (incl_b_sound _ _ kw_incl_2) in E2.
-    destruct E2 as [E2|[E2|E2]]; [congruence|congruence|]. apply existsb_eqb_in in E2. congruence.
+  - apply existsb_eqb_in in E2. apply (incl_b_sound _ _ kw_incl_2) in E2. apply existsb_eqb_in in E2. congruence.
 Qed.
 Lemma all_is_kw : existsb (beq_bytes kw_all) kw2008 = true.
 Proof. vm_compute. reflexivity. Qed.
@@ -468,14 +468,14 @@ Proof.
 Qed.
 
 (* the tick rule: the keyword classes of the two tables coincide away from the two PSL words *)
-Lemma ident_after_agree t : map to_lower t <> ASSUME_G -> map to_lower t <> RESTRICT_G ->
+Lemma ident_after_agree t :
   can_be_char (Some (ident_kind kw2008 t)) = can_char (ident_after LangLexer.keywords_2008 t).
 Proof.
-  intros N1 N2. unfold ident_kind, ident_after. cbv zeta.
+  unfold ident_kind, ident_after. cbv zeta.
   change (map lower t) with (map to_lower t). set (l := map to_lower t) in *.
-  rewrite (kw_agree l N1 N2). change KW_ALL with kw_all.
+  rewrite (kw_agree l). change KW_ALL with kw_all.
   destruct (list_eqb l kw_all) eqn:EA.
-  - apply list_eqb_eq in EA. rewrite EA. rewrite <- (kw_agree kw_all) by discriminate. rewrite all_is_kw.
+  - apply list_eqb_eq in EA. rewrite EA. rewrite <- (kw_agree kw_all). rewrite all_is_kw.
     cbn [can_be_char can_char]. rewrite beq_list_eqb, list_eqb_refl. reflexivity.
   - destruct (existsb (list_eqb l) LangLexer.keywords_2008).
     + cbn [can_be_char can_char]. rewrite beq_list_eqb, EA. reflexivity.
@@ -791,12 +791,12 @@ Qed.
 Lemma main_step : forall n f last prev s ts, (f <= n)%nat ->
   lex kw2008 f last s = LexOk ts ->
   syn_clean_of ts = true ->
-  no_directive s = true -> no_cr s = true -> has_psl_word s = false ->
+  no_directive s = true -> no_cr s = true ->
   can_be_char last = can_char prev ->
   forall f', (length s < f')%nat ->
   split_from LangLexer.keywords_2008 f' prev s = Some (syn_lexemes_of (merge ts)).
 Proof.
-  induction n as [|n IH]; intros f last prev s ts Lf LX CL ND NC NP INV f' Lf'.
+  induction n as [|n IH]; intros f last prev s ts Lf LX CL ND NC INV f' Lf'.
   { destruct f; [discriminate LX|lia]. }
   destruct f as [|f0]; [discriminate LX|].
   rewrite lex_S in LX.
@@ -806,8 +806,7 @@ Proof.
   destruct un.
   { destruct (Tu eq_refl) as [-> _]. inversion LX; subst. discriminate CL. }
   pose proof (gap_trivia _ _ _ _ T (S (length s)) (Nat.lt_succ_diag_r _)) as GT. unfold byte in *. rewrite GT. clear GT.
-  rewrite <- Tb in ND, NC, NP. apply no_dir_app in ND as [_ ND]. apply no_cr_app in NC as [_ NC].
-  apply psl_suffix in NP.
+  rewrite <- Tb in ND, NC. apply no_dir_app in ND as [_ ND]. apply no_cr_app in NC as [_ NC].
   destruct r as [|c r0].
   { inversion LX; subst. reflexivity. }
   destruct (token kw2008 last (c :: r0)) as [[[k t] r'] e] eqn:TK.
@@ -819,7 +818,6 @@ Proof.
   assert (e = None) by (destruct e; [discriminate CD|reflexivity]). subst e. clear CD.
   pose proof NC as NCt. rewrite <- Gb in NCt. apply no_cr_app in NCt as [NCt NC'].
   pose proof ND as ND'. rewrite <- Gb in ND'. apply no_dir_app in ND' as [_ ND'].
-  pose proof NP as NPt. rewrite <- Gb in NPt. pose proof (psl_suffix _ _ NPt) as NP'. apply psl_head in NPt as [NPa NPr].
   assert (Lr' : (length r' < f'')%nat) by (unfold byte in *; lia).
   assert (EOFK : is_eof k = false) by (destruct k; try reflexivity; contradiction Gk; reflexivity).
   (* the common continuation: the head token is kept as it is *)
@@ -829,7 +827,7 @@ Proof.
             = Some (syn_lexemes_of (merge ((mkTok k t tr, None) :: ts')))).
   { intros a INV' MG. rewrite MG.
     rewrite (lexemes_cons _ _ _ _ _ EOFK), (norm_eol_id _ NCt).
-    rewrite (IH f0 (Some k) a r' ts' ltac:(lia) LX' CL' ND' NC' NP' INV' f'' Lr'). reflexivity. }
+    rewrite (IH f0 (Some k) a r' ts' ltac:(lia) LX' CL' ND' NC' INV' f'' Lr'). reflexivity. }
   destruct (letter c) eqn:LC.
   - (* identifier, reserved word, or bit string literal without length *)
     rewrite (token_letter _ _ _ _ LC) in TK. destruct (span ident_char (c :: r0)) as [ti ri] eqn:SP.
@@ -847,16 +845,16 @@ Proof.
       { rewrite merge_cons. cbn [t_kind t_text t_trivia is_ident is_str no_trivia andb]. rewrite IB. reflexivity. }
       rewrite MG.
       rewrite lexemes_cons by reflexivity.
-      rewrite <- QA in NC', ND', NP'. change (34 :: body ++ rq) with ((34 :: body) ++ rq) in NC', ND', NP'.
-      apply no_cr_app in NC' as [NCb NCq]. apply no_dir_app in ND' as [_ NDq]. apply psl_suffix in NP'.
+      rewrite <- QA in NC', ND'. change (34 :: body ++ rq) with ((34 :: body) ++ rq) in NC', ND'.
+      apply no_cr_app in NC' as [NCb NCq]. apply no_dir_app in ND' as [_ NDq].
       assert (NCm : no_cr (t2 ++ 34 :: body) = true).
       { unfold no_cr in *. rewrite forallb_app, NCt, NCb. reflexivity. }
       rewrite (norm_eol_id _ NCm).
       assert (Lrq : (length rq < f'')%nat).
       { apply (f_equal (@length _)) in E. rewrite app_length in E. cbn [length] in *. unfold byte in *. lia. }
-      rewrite (IH f1 (Some KStringLiteral) AfterOther rq ts2 ltac:(lia) LX2 CL2 NDq NCq NP' eq_refl f'' Lrq).
+      rewrite (IH f1 (Some KStringLiteral) AfterOther rq ts2 ltac:(lia) LX2 CL2 NDq NCq eq_refl f'' Lrq).
       rewrite <- app_assoc. reflexivity.
-    + rewrite SP. apply KEEP; [apply ident_after_agree; assumption|].
+    + rewrite SP. apply KEEP; [apply ident_after_agree|].
       rewrite merge_cons. cbn [t_kind t_text t_trivia].
       destruct (is_ident (ident_kind kw2008 ti) && is_base_specifier ti) eqn:C1; [|destruct (is_abs (ident_kind kw2008 ti)) eqn:C2; [|reflexivity]].
       * apply andb_true_iff in C1 as [_ IB].
@@ -918,16 +916,16 @@ Proof.
              change (forallb is_intc t) with (forallb int_char t). rewrite FI, IB. reflexivity. }
            rewrite MG.
            rewrite lexemes_cons by reflexivity.
-           change (x2 :: t2' ++ 34 :: r2) with ((x2 :: t2') ++ 34 :: r2) in NC', ND', NP'.
-           apply no_cr_app in NC' as [NCi NC']. apply no_dir_app in ND' as [_ ND']. apply psl_suffix in NP'.
-           rewrite <- QA in NC', ND', NP'. change (34 :: body ++ rq) with ((34 :: body) ++ rq) in NC', ND', NP'.
-           apply no_cr_app in NC' as [NCb NCq]. apply no_dir_app in ND' as [_ NDq]. apply psl_suffix in NP'.
+           change (x2 :: t2' ++ 34 :: r2) with ((x2 :: t2') ++ 34 :: r2) in NC', ND'.
+           apply no_cr_app in NC' as [NCi NC']. apply no_dir_app in ND' as [_ ND'].
+           rewrite <- QA in NC', ND'. change (34 :: body ++ rq) with ((34 :: body) ++ rq) in NC', ND'.
+           apply no_cr_app in NC' as [NCb NCq]. apply no_dir_app in ND' as [_ NDq].
            assert (NCm : no_cr (t ++ (x2 :: t2') ++ 34 :: body) = true).
            { unfold no_cr in *. rewrite !forallb_app, NCt, NCi, NCb. reflexivity. }
            rewrite (norm_eol_id _ NCm).
            assert (Lrq : (length rq < f'')%nat).
            { cbn [length] in *. rewrite app_length in Lr'. cbn [length] in Lr'. unfold byte in *. lia. }
-           rewrite (IH f2 (Some KStringLiteral) AfterOther rq ts2 ltac:(lia) LX2 CL2 NDq NCq NP' eq_refl f'' Lrq).
+           rewrite (IH f2 (Some KStringLiteral) AfterOther rq ts2 ltac:(lia) LX2 CL2 NDq NCq eq_refl f'' Lrq).
            rewrite <- !app_assoc. reflexivity.
         -- apply KEEP; [reflexivity|]. rewrite merge_cons. cbn [t_kind t_text t_trivia is_ident is_abs andb].
            destruct ts' as [|[i_ di] [|[s_ ds] rest']]; try reflexivity.
@@ -948,10 +946,10 @@ Qed.
 (* the theorem                                                                                 *)
 (* ------------------------------------------------------------------------------------------ *)
 Theorem syn_is_spec : forall s,
-  clean_syn s = true -> no_directive s = true -> no_cr s = true -> has_psl_word s = false ->
+  clean_syn s = true -> no_directive s = true -> no_cr s = true ->
   split_spec LangLexer.keywords_2008 s = lexemes_syn s.
 Proof.
-  intros s CL ND NC NP.
+  intros s CL ND NC.
   unfold lexemes_syn, clean_syn, syn_result, token_stream, synlex in *. unfold byte in *.
   destruct (lex kw2008 (S (length s)) None s) as [ts| |] eqn:LX; try discriminate CL.
   cbn [option_map snd]. unfold split_spec.
@@ -966,7 +964,7 @@ Definition ex_syn : list N :=
   [120; 34; 65; 34; 32; 49; 50; 115; 98; 34; 48; 34; 39; 97; 39; 40; 39; 98; 39; 41; 39; 99; 32; 45; 45; 120; 10;
    49; 54; 35; 70; 35; 101; 49; 63; 47; 61; 92; 97; 92; 34; 113; 34; 34; 34; 58; 61; 49; 46; 53].
 Lemma ex_syn_ok : clean_syn ex_syn = true /\ no_directive ex_syn = true /\ no_cr ex_syn = true
-  /\ has_psl_word ex_syn = false
+
   /\ length (match lexemes_syn ex_syn with Some l => l | None => [] end) = 14%nat.
 Proof. vm_compute. repeat split. Qed.
 
